@@ -313,7 +313,21 @@ def encode(m, choices=None):
         items = []
         for i, f in enumerate(funcs):
             p = "code%d" % i
-            body = vec(e, [e.u(n, "%s.local%d.n" % (p, j)) + [VT[t]] for j, (t, n) in enumerate(f.get("locals", []))],
+            groups = [(t, n) for t, n in f.get("locals", [])]
+            how = choices.get("splitLocals")
+            if how:
+                # the same locals written as other declaration groups: one per local ("single"), in pairs ("pairs"),
+                # with empty groups sprinkled in ("empties") - all decode to the same vector of locals
+                out = []
+                for t, n in groups:
+                    if how == "single":
+                        out += [(t, 1)] * n
+                    elif how == "pairs":
+                        out += [(t, 2)] * (n // 2) + ([(t, 1)] if n % 2 else [])
+                    else:
+                        out += [(t, 0), (t, n), ({"i32": "f64", "i64": "i32", "f32": "i64", "f64": "f32"}[t], 0)]
+                groups = out
+            body = vec(e, [e.u(n, "%s.local%d.n" % (p, j)) + [VT[t]] for j, (t, n) in enumerate(groups)],
                        p + ".locals")
             body += enc_expr(e, f["body"], p + ".body")
             items.append(e.u(len(body), p + ".size") + body)
